@@ -3,6 +3,7 @@ import AdfObdd.PreGround
 import AdfObdd.PreGround2
 import AdfObdd.Bridge
 import AdfObdd.FnRA
+import AdfObdd.FromParserProofs
 /-! # C01 — the grounded interpretation is the least fixpoint, on every back-end
 
 `Gam D` is the three-valued consequence operator of the acceptance conditions `D` (a statement is
@@ -75,5 +76,61 @@ example : WF Store.init ∧ (∀ t ∈ [1, 0], t < Store.init.nodes.size) ∧ [1
   intro t ht
   simp at ht
   rcases ht with h | h <;> subst h <;> simp [Store.init]
+
+end C01
+
+/-! ## end to end from the TEXT, facts in any order (`FromParser`, `FromParserProofs`) -/
+namespace C01
+open ParserM FromParser
+
+/-- **from the text to the grounded interpretation.** If the parser (C08 model `parse`) accepts the
+text `t`, then `t` spells a non-empty list of facts `fs` (unique: C08.grammar_unambiguous);
+`from_parser` on the parser object panics iff `fs` is not a well-formed ADF; otherwise — whatever the
+order of the facts in the text — the store is well formed, `ac` denotes position-wise the
+index-level functions `condFns fs` of the written conditions (last condition per statement, ⊥ if
+none), and the vector `grounded` computes on it is the least fixpoint of Γ for them. -/
+theorem grounded_from_text (t : List Char) (st : PState) (h : parse t = some st) :
+    ∃ fs, fs ≠ [] ∧ DerFile fs t ∧ st = PState.ofFacts fs ∧ dictSizeOf st = (namesOf fs).length ∧
+      ((fromParser st).isSome = true ↔ WellFormedAdf fs) ∧
+      ∀ s ac, fromParser st = some (s, ac) → dictSizeOf st ≤ VBOT →
+        WF s ∧ (∀ t ∈ ac, t < s.nodes.size) ∧ ac.map (eval s) = condFns fs ∧
+        IsLfp (condFns fs) ((groundedLoop StoreRA (dictSizeOf st + 1) s ac).2.map storeIsConst) :=
+  FromParser.grounded_from_text t st h
+
+/-- the same for the complete interpretations (exactly the fixpoints of Γ, once each, the grounded
+one first) and the stable models (exactly those of the definition, once each) -/
+theorem complete_stable_from_text (t : List Char) (st : PState) (h : parse t = some st)
+    (s : Store) (ac : List Nat) (hb : fromParser st = some (s, ac)) (hn : dictSizeOf st ≤ VBOT) :
+    ∃ fs, fs ≠ [] ∧ DerFile fs t ∧ st = PState.ofFacts fs ∧
+      (let n := dictSizeOf st
+       ((completeAll s n ac).2.2.map (fun v => v.map storeIsConst)).Nodup ∧
+       (∀ w : I3, w ∈ (completeAll s n ac).2.2.map (fun v => v.map storeIsConst) ↔
+         (w.length = n ∧ Gam (condFns fs) w = w)) ∧
+       (completeAll s n ac).2.2.head? = some (completeAll s n ac).2.1) ∧
+      (let n := dictSizeOf st
+       let out := (stableAll s n ac).2.map (fun v => v.map storeIsConst)
+       out.Nodup ∧ ∀ v : I3, v ∈ out ↔ (v.length = n ∧ StableExact.StableI (condFns fs) v)) :=
+  FromParser.complete_stable_from_text t st h s ac hb hn
+
+/-- `ac(c,and(a,b)).s(a).s(b).s(c).ac(b,a).ac(a,c(v)).` — the condition of `c` before every
+declaration, the conditions in the order c, b, a -/
+private def exT : List Char :=
+  ['a','c','(','c',',','a','n','d','(','a',',','b',')',')','.','s','(','a',')','.','s','(','b',')','.',
+   's','(','c',')','.','a','c','(','b',',','a',')','.','a','c','(','a',',','c','(','v',')',')','.']
+private def exF : List Fact :=
+  [.ac ['c'] (.and (.atom ['a']) (.atom ['b'])), .stmt ['a'], .stmt ['b'], .stmt ['c'],
+   .ac ['b'] (.atom ['a']), .ac ['a'] .top]
+
+/-- non-vacuity of `grounded_from_text`: the text is accepted with these facts, they are a
+well-formed ADF, so `from_parser` returns some `(s, ac)`, and three statements are below the bound -/
+example : parse exT = some (PState.ofFacts exF) ∧ WellFormedAdf exF ∧
+    (∃ s ac, fromParser (PState.ofFacts exF) = some (s, ac)) ∧ dictSizeOf (PState.ofFacts exF) ≤ VBOT := by
+  refine ⟨by decide, by decide, ?_, by rw [dictSizeOf_ofFacts]; simp [VBOT, exF, namesOf]⟩
+  cases hb : fromParser (PState.ofFacts exF) with
+  | none => have := fromParser_isSome exF (by decide); rw [hb] at this; cases this
+  | some r => exact ⟨r.1, r.2, rfl⟩
+-- the evaluation on this text: a ↦ ⊤, b ↦ a, c ↦ a ∧ b at positions 0, 1, 2; grounded = T T T
+#guard ((parse exT).bind fromParser).map (fun r => (groundedLoop StoreRA 4 r.1 r.2).2) == some [1, 1, 1]
+#guard ((parse exT).bind fromParser).map (·.2) == some [1, 2, 5]
 
 end C01
